@@ -155,6 +155,20 @@ def check(ctx):
         ctx.check(L.driver is not None and not L.exits, "C06.c", "revoke_reactor:visits-every-token-entry", rr.loc(L.header),
                   "token loop has no early exit", "the loop over the token's reactor types can be left early")
     ctx.floor("C06.c", len(LP.find_loops(rr)), 1, "loop over token entries")
+    # every function that schedules revoke_reactor does so on every path: a revocation request is never dropped at call
+    # time (in particular it is not gated on the reactor's own entity: a one-off reactor despawns itself and THEN revokes)
+    uses = [(body, b) for body, b, i, fr in prog.fn_value_uses(lambda n: n.endswith("react_commands::revoke_reactor")) if i is None]
+    ctx.floor("C06.c", len(uses), 1, "sites scheduling revoke_reactor")
+    for body, b in uses:
+        w = lib.path_to_return_avoiding(body, [0], [b])
+        ctx.check(w is None, "C06.c", "%s:revocation-scheduled-on-every-path" % lib.fkey(body), body.loc(b),
+                  "every path of %s schedules revoke_reactor with the token" % lib.fkey(body),
+                  "%s can return without scheduling the revocation (a revoke request is silently dropped)" % lib.fkey(body),
+                  lib.render_path(body, w) if w else None)
+        tok_ok = any(lib.originates_from_arg(body, a, n) for a in body.blocks[b]["term"]["args"] for n in range(1, body.arg_count + 1)
+                     if "RevokeToken" in body.local_ty(n))
+        ctx.check(tok_ok, "C06.c", "%s:schedules-own-token" % lib.fkey(body), body.loc(b), "the scheduled revocation carries the caller's token",
+                  "the scheduled revocation does not carry the token passed to %s" % lib.fkey(body))
 
     # ---- C06.d idempotent / dead tolerant ----
     for f in path_fns:
